@@ -18,9 +18,9 @@ vars == <<model, pose, out, phase>>
 Init ==
   /\ phase = "init" /\ out = <<>>
   /\ \E n \in 1..MaxLinks :
-       \E g \in RandomSubset(NModels, Genomes(n)) :
+       \E g \in Genomes(NModels, n) :
          /\ model = DecodeModel(g, n)
-         /\ \E p \in RandomSubset(NPoses, [1..(n * PGW) -> GeneVals]) : pose = DecodePose(model, p)
+         /\ \E k \in 1..NPoses : pose = DecodePose(model, Gen(SeedBase + 7919 * k + g[1] + 13 * g[5] + 101 * g[9], n * PGW))
   /\ WithinBudget(model, pose, Budget)
 
 Compute ==
